@@ -82,6 +82,13 @@ CHECKS = {
             "Faults are exceptions in the calling thread (not process death); a fault inside register() may leave either complete "
             "set; quick samples every 7th crash point, thorough all of them.",
             "DESIGN.md §4 C18"),
+    "C19": ("exploration",
+            "runtime schedule exploration: cooperative sys.monitoring scheduler forcing thread switches at genuine pre-emption points (exhaustive single pre-emption sweep, sampled double pre-emption, random switching) plus raw OS races; each thread's outcome vs sequential twin and post-run probes",
+            "Worker threads are stopped at every function entry, non-inlined call and backward jump inside library code and a "
+            "policy decides who runs, so single-pre-emption schedules are enumerated for racing first calls, cache misses, "
+            "call_next chains and dependent dispatcher generation; raw races with a 1 us switch interval complement them.",
+            "2-3 controlled threads, 2-4 raw threads, GIL build; a timed-out schedule is inconclusive, never a violation.",
+            "DESIGN.md §4 C19"),
     "C04": ("exploration",
             "runtime differential monitor: long-lived function vs never-called twin on every call of a history (order pinned)",
             "Each call of a random history (failing calls, nested recurse / call_next / f.next with same and other "
